@@ -27,7 +27,7 @@ RULE = ('seven case kinds; five over packages of 1-5 stub chemicals (quadratic d
         '(z pre-processing), N==0 / N==1 / N>=2 branches, negative and zero entries, unnormalised and trace compositions; '
         '(tsat) Chemical.Tsat branches; (cache) histories of constructor calls, object identity pattern and Tmin/Tmax/Pmin/Pmax '
         'of every returned instance; (history) 3-7 calls (repeats, k*z, alternating T/P and bubble/dew solves) on ONE BubblePoint/DewPoint '
-        'pair compared with run_calls of the model; (real) 18 (quick) / 150 (thorough) structured real-chemical cases per run with the real '
+        'pair compared with run_calls of the model; (real) 24 (quick) / 156 (thorough) structured real-chemical cases per run with the real '
         'flexsolve - templates plain / mixed-groups (chemicals without UNIFAC/Dortmund groups listed among chemicals with groups, random '
         'order) / edge (specification 0.25-25 K above the common lower end of the vapour-pressure correlations) over the ideal, Dortmund '
         'and UNIFAC packages - on which the direct oracle evaluates every clause plus the package contracts the theorems assume '
@@ -215,6 +215,27 @@ def py_gamma_iter():
     finally:
         e['dpm'].gamma_iter = gi
 
+class _RaisingOpenSolver:
+    """flexsolve with aitken_secant raising RuntimeError: drives the wrappers into their `except RuntimeError` fall-back,
+    which then runs the real IQ_interpolation"""
+    def __init__(self, real):
+        self._real = real
+    def __getattr__(self, name):
+        return getattr(self._real, name)
+    def aitken_secant(self, *a, **k):
+        raise RuntimeError('open solver made to fail (error-path probe)')
+
+@contextlib.contextmanager
+def forced_fallback():
+    e = env()
+    bpm, dpm = e['bpm'], e['dpm']
+    old_b, old_d = bpm.flx, dpm.flx
+    bpm.flx = dpm.flx = _RaisingOpenSolver(e['real_flx'])
+    try:
+        yield
+    finally:
+        bpm.flx, dpm.flx = old_b, old_d
+
 def install(pk):
     """Re-parametrise the pooled stub chemicals for this case and return (chemical tuple, thermo)."""
     e = env()
@@ -334,37 +355,53 @@ def gen_case(rng):
             c['T'], c['P'] = rng.choice([(None, None), (300., 65536.), (0., 65536.), (300., 0.), (0., 0.), (0., None)])
         return c
     if r < 0.84:
-        # history of calls on ONE BubblePoint / DewPoint pair (repeats, k*z, alternating T and P solves)
+        # history of calls on ONE BubblePoint / DewPoint pair; the caller owns 1-2 composition arrays, hands the array
+        # objects themselves to the solvers and updates them in place between calls (repeats, k*z, alternating T and P solves)
         pk = gen_pkg(rng)
         n = len(pk['chems'])
-        z = gen_z(rng, n, malformed=rng.random() < 0.1)
+        bufs = [gen_z(rng, n, malformed=rng.random() < 0.1) for _ in range(rng.choice([1, 1, 2]))]
         ops = []
-        for _ in range(rng.randint(3, 6)):
-            which = rng.choice(['Ty', 'Py', 'Tx', 'Px'])
-            zz = z if rng.random() < 0.6 else [x * rng.choice([2., 0.5, 4.]) for x in z] if rng.random() < 0.6 else gen_z(rng, n)
-            ops.append([which, zz, dy(rng, PS) if which[0] == 'T' else dy(rng, TS)])
+        cur = [list(b) for b in bufs]
+        fixed = {'T': dy(rng, TS), 'P': dy(rng, PS)}       # specifications that recur, so that "same T, array updated" occurs
+        for _ in range(rng.randint(3, 7)):
+            if ops and rng.random() < 0.35:
+                i = rng.randrange(len(bufs))
+                r2 = rng.random()
+                znew = ([x * rng.choice([2., 0.5, 4.]) for x in cur[i]] if r2 < 0.3 else gen_z(rng, n))
+                ops.append(['set', i, znew]); cur[i] = znew
+                continue
+            which = rng.choice(['Ty', 'Py', 'Tx', 'Px', 'Py', 'Px'])
+            var = 'P' if which[0] == 'T' else 'T'
+            arg = fixed[var] if rng.random() < 0.7 else dy(rng, PS if var == 'P' else TS)
+            ops.append(['call', which, rng.randrange(len(bufs)), arg])
+        first = next(o for o in ops if o[0] == 'call')
         if rng.random() < 0.7:
-            ops.append(list(ops[0]))          # the first call again, after the others
-        return {'kind': 'history', 'pkg': pk, 'ops': ops, 'ks': rng.choice([['newton'], ['echo'], ['newton']]),
+            ops.append(list(first))           # the first call again, after the others
+        return {'kind': 'history', 'pkg': pk, 'bufs': bufs, 'ops': ops, 'ks': rng.choice([['newton'], ['echo'], ['newton']]),
                 'ki': rng.choice([['newton'], ['echo']]), 'nweg': rng.choice([0, 1, 1, 2])}
     if r < 0.88:
         ch = gen_chem(rng)
         return {'kind': 'tsat', 'chem': ch, 'P': dy(rng, PS), 'ks': gen_kind(rng, 'T'), 'ki': gen_kind(rng, 'T', allow_raise=rng.random() < 0.3)}
-    # cache histories
+    # constructor histories: explicit thermo or the session default (settings.set_thermo between the calls)
     pk = gen_pkg(rng, n=rng.choice([3, 4, 5]))
     n = len(pk['chems'])
-    keys = []
-    for _ in range(rng.randint(3, 9)):
-        if keys and rng.random() < 0.4:
-            k = list(rng.choice(keys))
+    THS = ['iii', 'sii', 'isi', 'iis', 'sss']
+    ops = []
+    news = []
+    for _ in range(rng.randint(4, 10)):
+        r2 = rng.random()
+        if r2 < 0.25:
+            ops.append(['default', rng.choice(THS)])
+            continue
+        if news and r2 < 0.6:
+            k = list(rng.choice(news))
             if rng.random() < 0.3:
-                k[1] = rng.choice(['iii', 'sii', 'isi', 'iis', 'sss'])
-            keys.append(k)
+                k[2] = rng.choice(THS + [None, None])
         else:
             m = rng.choice([0, 1, 2, 2, 3, n])
-            idx = rng.sample(range(n), m)
-            keys.append([idx, rng.choice(['iii', 'sii', 'isi', 'iis', 'sss']), rng.choice(['tuple', 'list'])])
-    return {'kind': 'cache', 'pkg': pk, 'cls': rng.choice(['B', 'D']), 'keys': keys}
+            k = ['new', rng.sample(range(n), m), rng.choice(THS + [None, None, None]), rng.choice(['tuple', 'list'])]
+        news.append(k); ops.append(list(k))
+    return {'kind': 'cache', 'pkg': pk, 'cls': rng.choice(['B', 'D']), 'ops': ops}
 
 def gen_cases(rng, tier):
     n = 330 if tier == 'quick' else 6000
@@ -373,7 +410,7 @@ def gen_cases(rng, tier):
     # (pure, permutation-equivariant Gamma/Phi/PCF, Gamma.f/args == Gamma()) evaluated directly, on every run
     # stratified: every (template, package) combination occurs in every run; the draws inside a case come from rng
     combos = [(t, p) for p in PACKAGES for t in TEMPLATES]
-    return cases + [gen_real(rng, *combos[i % len(combos)]) for i in range(18 if tier == 'quick' else 153)]
+    return cases + [gen_real(rng, *combos[i % len(combos)]) for i in range(24 if tier == 'quick' else 156)]
 
 # ------------------------------------------------------------------ implementation side
 def mk_point(case_cls, cs, thermo):
@@ -444,43 +481,63 @@ def run_tsat(case):
         res = guarded(lambda: float(cs[0].Tsat(case['P'], check_validity=False)))
     return {'res': res, 'solvers': [t['solver'] for t in shim.trace]}
 
+def pk_ids(o):
+    """class ids of the package objects an instance holds: 0 = ideal / mock, 1 = stand-in class"""
+    return [int(type(o.gamma).__name__.startswith('Stub')), int(type(o.phi).__name__.startswith('Stub')),
+            int(type(o.pcf).__name__.startswith('Stub'))]
+
 def run_cache(case):
     cs, _ = install(case['pkg'])
     e = env()
+    tmo = e['tmo']
     cls = e['eq'].BubblePoint if case['cls'] == 'B' else e['eq'].DewPoint
-    objs, ids, doms, oks = [], [], [], []
-    for idx, th, form in case['keys']:
-        chs = [cs[i] for i in idx]
-        chs = tuple(chs) if form == 'tuple' else list(chs)
-        try:
-            o = cls(chs, e['thermos'][th])
-        except Exception as ex:
-            oks.append(ERR.get(type(ex).__name__, 'EOther')); ids.append(None); doms.append(None)
-            continue
-        oks.append('ok')
-        for j, p in enumerate(objs):
-            if p is o:
-                ids.append(j); break
-        else:
-            objs.append(o); ids.append(len(objs) - 1)
-        doms.append([o.Tmin, o.Tmax, o.Pmin, o.Pmax])
-        if tuple(o.IDs) != tuple(POOL[i] for i in idx):
-            oks[-1] = 'wrong-IDs'
-    return {'oks': oks, 'ids': ids, 'doms': doms}
+    objs, ids, doms, oks, pks = [], [], [], [], []
+    tmo.settings.set_thermo(e['thermos']['iii'])
+    try:
+        for op in case['ops']:
+            if op[0] == 'default':
+                tmo.settings.set_thermo(e['thermos'][op[1]])
+                continue
+            _, idx, th, form = op
+            chs = [cs[i] for i in idx]
+            chs = tuple(chs) if form == 'tuple' else list(chs)
+            try:
+                o = cls(chs) if th is None else cls(chs, e['thermos'][th])
+            except Exception as ex:
+                oks.append(ERR.get(type(ex).__name__, 'EOther')); ids.append(None); doms.append(None); pks.append(None)
+                continue
+            oks.append('ok')
+            for j, p in enumerate(objs):
+                if p is o:
+                    ids.append(j); break
+            else:
+                objs.append(o); ids.append(len(objs) - 1)
+            doms.append([o.Tmin, o.Tmax, o.Pmin, o.Pmax])
+            pks.append(pk_ids(o))
+            if tuple(o.IDs) != tuple(POOL[i] for i in idx):
+                oks[-1] = 'wrong-IDs'
+    finally:
+        tmo.settings.set_thermo(e['thermos']['iii'])
+    return {'oks': oks, 'ids': ids, 'doms': doms, 'pks': pks}
 
 def run_history(case):
     cs, thermo = install(case['pkg'])
     BP, DP = mk_point('B', cs, thermo), mk_point('D', cs, thermo)
+    arrays = [np.array(b, float) for b in case['bufs']]
     res = []
     with stubbed(Shim(case['ks'], case['ki'], case['nweg'])):
-        for which, z, arg in case['ops']:
+        for op in case['ops']:
+            if op[0] == 'set':
+                arrays[op[1]][:] = op[2]
+                continue
+            _, which, i, arg = op
             obj = BP if which[1] == 'y' else DP
             m = getattr(obj, 'solve_' + which)
-            def f(m=m, z=z, arg=arg):
-                r = m(np.array(z, float), arg)
+            def f(m=m, a=arrays[i], arg=arg):
+                r = m(a, arg)              # the caller's array object itself
                 return [float(r[0]), fl(r[1])]
             res.append(guarded(f))
-    return {'res': res, 'dom': [BP.Tmin, BP.Tmax, BP.Pmin, BP.Pmax]}
+    return {'res': res, 'bufs': [fl(a) for a in arrays], 'dom': [BP.Tmin, BP.Tmax, BP.Pmin, BP.Pmax]}
 
 def run_impl(case):
     k = case['kind']
@@ -571,9 +628,13 @@ def coq_case(case, out):
                 body += f' && vapproxb (fst (Px_prep k {z} {T})) {qlist(prep[0])} && vapproxb (snd (Px_prep k {z} {T})) {qlist(prep[1])}'
         return with_pkg(case['pkg'], body, out['dom'])
     if kd == 'history':
-        calls = clist([f'(C{w} {qlist(z)} {q(a)})' for w, z, a in case['ops']])
+        ops = clist([f'(HSet {cnat(o[1])} {qlist(o[2])})' if o[0] == 'set' else f'(HCall W{o[1]} {cnat(o[2])} {q(o[3])})'
+                     for o in case['ops']])
         exp = clist([cres_qv(r) for r in out['res']])
-        return with_pkg(case['pkg'], f'list_eqb rqv_approxb (run_calls k {S} {calls}) {exp}', out['dom'])
+        bufs = clist([qlist(b) for b in case['bufs']])
+        body = (f'(let r := run_hist k {S} {bufs} {ops} in list_eqb rqv_approxb (fst r) {exp} && '
+                f'list_eqb vapproxb (snd r) {clist([qlist(b) for b in out["bufs"]])})')
+        return with_pkg(case['pkg'], body, out['dom'])
     if kd == 'tsat':
         res = out['res']
         exp = f'(Ok {q(res[1])})' if res[0] == 'ok' else f'(Err {res[1]})'
@@ -581,23 +642,27 @@ def coq_case(case, out):
     if kd == 'cache':
         pk = case['pkg']
         # class ids of Gamma/Phi/PCF: 0 = ideal/mock, 1 = stand-in; chemical object ids = pool positions
-        keys = clist([f'({clist(idx, cnat)}, {cnat(th[0] == "s")}, {cnat(th[1] == "s")}, {cnat(th[2] == "s")})'
-                      for idx, th, form in case['keys']])
-        n = len(pk['chems'])
+        def cth(th):
+            return f'({cnat(th[0] == "s")}, {cnat(th[1] == "s")}, {cnat(th[2] == "s")})'
+        ops = clist([f'(CDefault {cth(o[1])})' if o[0] == 'default' else
+                     f'(CNew {clist(o[1], cnat)} {"None" if o[2] is None else "(Some " + cth(o[2]) + ")"})' for o in case['ops']])
         allc = clist([cchem(c) for c in pk['chems']])
         build = (f'(fun ky : key => match ky with (ids, g, p, f) => '
                  f'let cs := map (fun i => nth i {allc} (mkchem (quad 0 0 0) 0 0 None 0 0)) ids in '
-                 f'do k <- new_pkg cs (ideal_gam 0) true (ideal_phi 0) (mock_pcf 0); Ok (pkg_dom k) end)')
+                 f'do k <- new_pkg cs (ideal_gam 0) true (ideal_phi 0) (mock_pcf 0); Ok (pkg_dom k, (g, p, f)) end)')
         exp = []
-        for ok, i, d in zip(out['oks'], out['ids'], out['doms']):
+        for ok, i, d, pkc in zip(out['oks'], out['ids'], out['doms'], out['pks']):
             if ok == 'ok':
-                exp.append(f'(Ok ({cnat(i)}, ({q(d[0])}, {q(d[1])}, {q(d[2])}, {q(d[3])})))')
+                exp.append(f'(Ok ({cnat(i)}, (({q(d[0])}, {q(d[1])}, {q(d[2])}, {q(d[3])}), ({cnat(pkc[0])}, {cnat(pkc[1])}, {cnat(pkc[2])}))))')
             elif ok.startswith('E'):
                 exp.append(f'(Err {ok})')
             else:
                 return 'false'
-        cmp_ = ('(res_eqb (fun u v => Nat.eqb (fst u) (fst v) && dom_approxb (Ok (snd u)) (Ok (snd v))))')
-        return f'(list_eqb {cmp_} (fst (cache_run {build} ([], 0%nat) {keys})) {clist(exp)})'
+        pkeq = ('(fun a b : nat * nat * nat => match a, b with (a1, a2, a3), (b1, b2, b3) => '
+                'Nat.eqb a1 b1 && Nat.eqb a2 b2 && Nat.eqb a3 b3 end)')
+        cmp_ = (f'(res_eqb (fun u v => Nat.eqb (fst u) (fst v) && dom_approxb (Ok (fst (snd u))) (Ok (fst (snd v))) && '
+                f'{pkeq} (snd (snd u)) (snd (snd v))))')
+        return f'(list_eqb {cmp_} (run_session {build} ([], 0%nat) (0%nat, 0%nat, 0%nat) {ops}) {clist(exp)})'
     if kd == 'real':
         return cbool(out.get('real') is None)
     raise ValueError(kd)
@@ -644,7 +709,7 @@ def classify(case, out):
         ks += ['solvers:' + '+'.join(out.get('solvers', [])[:4])]
         if case['ks'][0] == 'raise': ks.append('fallback-bracketing-solver')
     elif kd == 'history':
-        ks += ['history:len%d' % len(case['ops']), 'history:repeat' if case['ops'][-1] == case['ops'][0] else 'history:norepeat']
+        ks += ['history:len%d' % len(case['ops']), 'history:in-place-updates:%d' % sum(1 for o in case['ops'] if o[0] == 'set')]
         ks += ['history-result:' + (r[0] if r[0] == 'ok' else r[1]) for r in out['res']]
     elif kd == 'real':
         ks += ['real:' + case['package'], 'real:template:' + case.get('template', 'corpus'), 'real:n%d' % len(case['ids'])]
@@ -652,6 +717,8 @@ def classify(case, out):
         ks += ['tsat:' + ('+'.join(out['solvers']) or 'Tb-shortcut') + ':' + (out['res'][0] if out['res'][0] == 'ok' else out['res'][1])]
     elif kd == 'cache':
         ks += ['cache:' + ('hit' if nontrivial(case, out) else 'nohit')] + ['cache-result:' + o for o in out['oks']]
+        ks += ['cache:default-package-switches:%d' % sum(1 for o in case['ops'] if o[0] == 'default'),
+               'cache:calls-without-thermo:%d' % sum(1 for o in case['ops'] if o[0] == 'new' and o[2] is None)]
     return ks
 
 # ------------------------------------------------------------------ direct oracle
@@ -724,7 +791,8 @@ def package_contracts(BP, DP, BPp, chs, zn, perm, T, P, label):
 STRICT_DEW = bool(os.environ.get('STRICT_DEW'))
 
 def in_dom(obj, T):
-    return obj.Tmin <= T <= obj.Tmax
+    # strictly inside: a result AT an end of the object's domain is where the bounded solver stops when the root lies outside
+    return obj.Tmin + 1e-6 < T < obj.Tmax - 1e-6
 
 def check_pair(BP, DP, chs, z, T, P, ideal, label, strict=False):
     strict = strict or STRICT_DEW
@@ -874,6 +942,43 @@ def invariance(BP, DP, BPp, DPp, z, perm, k, T, P, label, ideal=True, chs=None, 
         if ok0 and okp and (rel(r0[0], rp[0]) > 1e-6 or np.abs(r0[1][perm] - rp[1]).max() > 1e-6):
             return (f'{label}: {name} depends on the order of the chemicals: {r0[0]!r}, {r0[1].tolist()} vs {rp[0]!r}, '
                     f'{rp[1].tolist()} for permutation {perm} (arg={arg!r})')
+    # the caller's array handed over again after an in-place update: nothing remembered from the earlier call may show, and
+    # the solvers must not write to the caller's array
+    n = len(z)
+    z2 = (z + z.sum() / n) * (1. + np.arange(n)) / n
+    for name, o, a in CALLS:
+        if name in first:
+            obj, arg = (BP if o == 'B' else DP), (P if a == 'P' else T)
+            r_fresh = getattr(obj, name)(z2.copy(), arg)     # reference first: nothing of z2 is held by the caller afterwards
+            buf = z.copy()
+            getattr(obj, name)(buf, arg)
+            if not np.array_equal(buf, z):
+                return f'{label}: {name} modified the composition array of its caller: {z.tolist()} -> {buf.tolist()}'
+            buf[:] = z2
+            r_alias = getattr(obj, name)(buf, arg)
+            if rel(r_alias[0], r_fresh[0]) > 1e-7 or np.abs(r_alias[1] - r_fresh[1]).max() > 1e-7:
+                return (f'{label}: {name} depends on earlier calls: after the caller updated its array in place ({z.tolist()} -> '
+                        f'{z2.tolist()}, same arg={arg!r}) it returned {r_alias[0]!r}; the same composition in a fresh array gives '
+                        f'{r_fresh[0]!r} (the earlier result was {first[name][0]!r})')
+    # the error path: when the open solver raises (InfeasibleRegion is a RuntimeError) the wrappers fall back on a bounded
+    # solve over [Tmin, Tmax] / [Pmin, Pmax]; wherever the root lies inside that bracket the fall-back must find the same point
+    for name, o, a in CALLS:
+        if name in first:
+            obj, arg = (BP if o == 'B' else DP), (P if a == 'P' else T)
+            r0 = first[name]
+            lo, hi = (obj.Tmin, obj.Tmax) if a == 'P' else (obj.Pmin, obj.Pmax)
+            if not (lo < r0[0] < hi) or (o == 'D' and not ideal):
+                continue        # (the dew equation with a composition-dependent gamma can have several roots)
+            if a == 'T' and o == 'B' and not (obj.Tmin < arg < obj.Tmax):
+                continue
+            try:
+                with forced_fallback():
+                    rf = getattr(obj, name)(z.copy(), arg)
+            except (RuntimeError, FloatingPointError):
+                continue
+            if rel(r0[0], rf[0]) > 1e-5:
+                return (f'{label}: {name} fall-back path (open solver raised): the bounded solver over [{lo!r}, {hi!r}] returned '
+                        f'{rf[0]!r}, the regular path {r0[0]!r} (arg={arg!r}, z={z.tolist()})')
     # history independence: the first calls again, after everything else that was computed with these objects
     for name, o, a in CALLS:
         if name in first:
@@ -902,6 +1007,21 @@ def oracle(case):
     eq = e['eq']
     kd = case['kind']
     if kd == 'real':
+        try:
+            return oracle_real(case)
+        except ReferenceError:
+            # numba's on-disk cache index of dew_point.gamma_iter (it takes a dispatcher argument) can be left unusable by a
+            # concurrent process ("underlying object has vanished"); from here on this process calls it through its py_func
+            gi = e['real_gamma_iter']
+            e['real_gamma_iter'] = getattr(gi, 'py_func', gi)
+            e['dpm'].gamma_iter = e['real_gamma_iter']
+            return oracle_real(case)
+    return oracle_other(case)
+
+def oracle_real(case):
+    e = env()
+    eq = e['eq']
+    if True:
         r = real_env()
         chs = tuple(real_chem(i) for i in case['ids'])
         thermo = r[case['package']]
@@ -932,6 +1052,10 @@ def oracle(case):
             return (f'{label}: activity coefficients at the same (x, T) changed while bubble/dew points were computed: '
                     f'{g_before.tolist()} before, {g_after.tolist()} after')
         return None
+def oracle_other(case):
+    e = env()
+    eq = e['eq']
+    kd = case['kind']
     if kd in ('solve', 'history'):
         pk = case['pkg']
         if kd == 'solve':
@@ -939,7 +1063,14 @@ def oracle(case):
                 return None
             specs = [(np.array(case['z'], float), case.get('T'), case.get('P'))]
         else:
-            specs = [(np.array(z, float), None if w[0] == 'T' else a, a if w[0] == 'T' else None) for w, z, a in case['ops']]
+            cur = [list(b) for b in case['bufs']]
+            specs = []
+            for op in case['ops']:
+                if op[0] == 'set':
+                    cur[op[1]] = list(op[2])
+                else:
+                    _, w, i, a = op
+                    specs.append((np.array(cur[i], float), None if w[0] == 'T' else a, a if w[0] == 'T' else None))
         cs, thermo = install(pk)
         n = len(cs)
         ideal = pk['G'] + pk['Phi'] + pk['PCF'] == 'iii'
@@ -957,7 +1088,7 @@ def oracle(case):
                 with py_gamma_iter():
                     m = check_pair(BP, DP, cs, z, T, P, ideal, label) if ideal else None
                     if m: return m
-                    m = invariance(BP, DP, BPp, DPp, z, perm, 3., T, P, label)
+                    m = invariance(BP, DP, BPp, DPp, z, perm, 3., T, P, label, ideal=ideal, chs=cs)
                     if m: return m
             except (RuntimeError, FloatingPointError, e['InfeasibleRegion']):
                 continue          # real solver left the stand-in package's domain: nothing to compare
@@ -965,10 +1096,22 @@ def oracle(case):
     if kd == 'cache':
         out = run_cache(case)
         seen = {}
-        for (idx, th, form), ok, i, d in zip(case['keys'], out['oks'], out['ids'], out['doms']):
+        dflt = 'iii'
+        news = []
+        for op in case['ops']:
+            if op[0] == 'default':
+                dflt = op[1]
+            else:
+                news.append((op[1], op[2] if op[2] is not None else dflt, op[2] is None))
+        for (idx, th, by_default), ok, i, d, pkc in zip(news, out['oks'], out['ids'], out['doms'], out['pks']):
             if ok != 'ok':
                 if ok == 'wrong-IDs': return 'cached instance has the wrong IDs'
                 continue
+            want = [int(th[0] == 's'), int(th[1] == 's'), int(th[2] == 's')]
+            if pkc != want:
+                how = 'the default package of the session at that moment' if by_default else 'the package passed as thermo'
+                return (f'{"BubblePoint" if case["cls"] == "B" else "DewPoint"}(chemicals{"" if by_default else ", thermo"}) returned an instance '
+                        f'whose Gamma/Phi/PCF classes {pkc} are not those of {how} {want} (chemicals {list(idx)})')
             kk = (tuple(idx), th)
             if kk in seen and seen[kk] != (i, d): return f'constructor call with the same key returned a different instance/domain: {kk}'
             for k2, v2 in seen.items():
@@ -989,7 +1132,9 @@ def finding_key(case, msg):
                 return 'C08:scale:' + name
     for pat, key in (('depends on the order', 'perm'), ('not permuted with the chemical list', 'package-perm'),
                      ('change between two', 'package-state'), ('changed while', 'package-state'),
-                     ('depends on earlier calls', 'history'), ('Gamma.f', 'gamma-f-args'),
+                     ('depends on earlier calls', 'history'), ('modified the composition array', 'caller-array'),
+                     ('fall-back path', 'fallback-path'), ('are not those of', 'cache-package'),
+                     ('share one instance', 'cache-identity'), ('same key returned', 'cache-identity'), ('Gamma.f', 'gamma-f-args'),
                      ('bubble equation violated', 'bubble-equation'),
                      ('differs from T =', 'PT-inverse'), ('differs from P =', 'TP-inverse'), ('exceeds', 'ordering'),
                      ('single component', 'single-component'), ('not normalised', 'normalised')):
@@ -998,7 +1143,10 @@ def finding_key(case, msg):
     return 'C08:other'
 
 # ------------------------------------------------------------------ real-chemical cases (regular stream and search)
-TEMPLATES = ['plain', 'mixed-groups', 'edge']
+TEMPLATES = ['plain', 'mixed-groups', 'edge', 'heavy']
+# low-volatility chemicals: at 260-300 K their dew pressures are a few Pa and below (the open pressure solver, which starts
+# at P_guess and P_guess - 10, leaves the feasible region and the wrappers take their bounded fall-back)
+HEAVY = ['Octane', 'Decane', 'Dodecane', 'Octanol', 'EthyleneGlycol', 'Toluene', 'Glycerol', 'Hexadecane']
 
 def gen_real(rng, tpl=None, package=None):
     """One structured real-chemical case.  Templates: plain (chemicals the package describes), mixed-groups (two or more
@@ -1013,6 +1161,9 @@ def gen_real(rng, tpl=None, package=None):
         ids = rng.sample(GROUPED, rng.choice([2, 2, 3])) + rng.sample(GROUPLESS, rng.choice([1, 1, 2]))
         rng.shuffle(ids)
         package = package or rng.choice(['dortmund', 'dortmund', 'unifac', 'ideal'])
+    elif tpl == 'heavy':
+        ids = rng.sample(HEAVY, rng.choice([2, 2, 3]))
+        package = package or rng.choice(PACKAGES)
     else:
         # chemicals whose correlations start within a few kelvin of each other, so that a specification just above the
         # common lower end is inside every chemical's range but within 10 K of the end of the object's VLE domain
@@ -1032,7 +1183,9 @@ def gen_real(rng, tpl=None, package=None):
     if m > 1 and perm == list(range(m)):
         perm = perm[1:] + perm[:1]
     c = {'kind': 'real', 'template': tpl, 'ids': ids, 'z': z, 'perm': perm, 'k': rng.choice([3., 0.5, 10., 1e-3, 4.]), 'package': package}
-    if tpl == 'edge':
+    if tpl == 'heavy':
+        c['Tspec'] = ['lo', rng.choice([1., 3., 8., 15., 25.])]
+    elif tpl == 'edge':
         c['Tspec'] = ['lo', rng.choice([0.25, 1., 2., 0.5, 1.5, 5., 12., 25.])]
     elif tpl == 'mixed-groups' or rng.random() < 0.5:
         c['Tspec'] = ['frac', rng.choice([0.1, 0.25, 0.4, 0.55, 0.7])]
